@@ -1,5 +1,6 @@
 mod alloc;
 mod auth;
+mod boot;
 mod autoalloc;
 mod cluster;
 mod journal;
@@ -20,6 +21,7 @@ fn main() {
         "journal" => journal::main(&args[2..]),
         "alloc" => alloc::main(&args[2..]),
         "auth" => auth::main(&args[2..]),
+        "boot" => boot::main(&args[2..]),
         "stream" => stream::main(&args[2..]),
         "sched" => sched::main(&args[2..]),
         "autoalloc" => autoalloc::main(&args[2..]),
